@@ -78,6 +78,23 @@ func newDirect() ntDirect {
 	return ntDirect{h: authntlm.NewNTLMAuth(database.NewConfig(users))}
 }
 
+// sessAddr turns the abstract session name of a script into an address:port session identifier.
+func sessAddr(scriptID, name string) string {
+	h := uint32(2166136261)
+	for _, c := range []byte(scriptID) {
+		h = (h ^ uint32(c)) * 16777619
+	}
+	port := 50000
+	for _, c := range []byte(name) {
+		port = port*7 + int(c)
+	}
+	port = 20000 + port%30000
+	if h%5 == 0 {
+		return fmt.Sprintf("[2001:db8:%x:%x::9]:%d", (h>>16)&0xffff, h&0xffff, port)
+	}
+	return fmt.Sprintf("10.%d.%d.%d:%d", (h>>16)&0xff, (h>>8)&0xff, h&0xff, port)
+}
+
 // RunNtlm replays one history and appends its trace.
 func RunNtlm(s *NtScript, tw *TraceWriter, rng *rand.Rand, conn *grpc.ClientConn) error {
 	var tg ntTarget
@@ -85,7 +102,7 @@ func RunNtlm(s *NtScript, tw *TraceWriter, rng *rand.Rand, conn *grpc.ClientConn
 		if conn == nil {
 			return fmt.Errorf("no auth service connection")
 		}
-		tg = ntGrpc{c: auth.NewAuthenticateClient(conn), prefix: s.ID + "/"}
+		tg = ntGrpc{c: auth.NewAuthenticateClient(conn), prefix: ""}
 	} else {
 		tg = newDirect()
 	}
@@ -102,7 +119,9 @@ func RunNtlm(s *NtScript, tw *TraceWriter, rng *rand.Rand, conn *grpc.ClientConn
 	var lastAuthCh int
 	for _, a := range s.Actions {
 		kind := str(a, "a", "")
-		sess := str(a, "s", "s1")
+		// the gateway names a session by the client's address and port (r.RemoteAddr): the sessions of one script are
+		// connections of one client host (same address, different ports), and every script is another host
+		sess := sessAddr(s.ID, str(a, "s", "s1"))
 		ev := M{"ev": "ntlm", "kind": kind, "s": sess, "u": "", "pwOk": false, "ch": 0, "target": s.Target}
 		var msg string
 		switch kind {
@@ -115,7 +134,11 @@ func RunNtlm(s *NtScript, tw *TraceWriter, rng *rand.Rand, conn *grpc.ClientConn
 			}
 			msg = base64.StdEncoding.EncodeToString(nm.Bytes())
 		case "auth":
-			u, pw, src := str(a, "u", "alice"), str(a, "pw", "right"), str(a, "src", sess)
+			u, pw := str(a, "u", "alice"), str(a, "pw", "right")
+			src := sess
+			if v := str(a, "src", ""); v != "" {
+				src = sessAddr(s.ID, v)
+			}
 			c := seen[src]
 			if c == nil {
 				continue // the model only answers challenges that were received
